@@ -33,6 +33,11 @@ type thread struct {
 	waitOthers     int
 	prevWaitOthers int
 	prevWaitValid  bool
+	// vblock: blocked until some thread has made progress (a step that changed memory, started or ended a thread)
+	blocked   bool
+	blockSeen int64
+	// vblockUntil: blocked until the predicate (a harness closure, evaluated by the scheduler) holds
+	blockPred Value
 }
 
 type threadState struct {
@@ -41,8 +46,10 @@ type threadState struct {
 	backCh   chan struct{} // thread -> scheduler: "I yielded / finished"
 	running  bool
 	switches int
+	preempts int
 	totalSteps int
 	schedule []string
+	progress int64 // steps so far that changed memory (or started / ended a thread)
 	mainFrame *Frame
 	mainDepth int
 }
@@ -66,6 +73,40 @@ func (ts *threadState) spawn(ex *Exec, fn FuncV, args []Value) {
 func (ts *threadState) maybeYield(ex *Exec, in ssa.Instruction) {}
 
 // yieldPoint is called by a running thread just before a visible operation.
+// blockUntil: the calling thread is runnable again only when pred() holds (evaluated by the scheduler, so a
+// blocked thread costs no scheduling decisions).
+func (ts *threadState) blockUntil(ex *Exec, pred Value) {
+	t := ts.cur
+	if t == nil || !ts.running {
+		return
+	}
+	t.blockPred = pred
+	ts.yieldPoint(ex, "block", false)
+}
+
+func (ts *threadState) predHolds(ex *Exec, t *thread) bool {
+	cur, sf, sd := ts.cur, ex.frame, ex.depth
+	ts.cur = nil
+	ex.frame, ex.depth = ts.mainFrame, ts.mainDepth
+	r := ex.callValue(t.blockPred, nil, nil)
+	ex.frame, ex.depth = sf, sd
+	ts.cur = cur
+	c, ok := r.(*Term)
+	if !ok || c.op != OConst {
+		ex.inconclusive("vblockUntil: predicate is not concrete")
+	}
+	return c.cval != 0
+}
+
+func (ts *threadState) blockPoint(ex *Exec) {
+	t := ts.cur
+	if t == nil || !ts.running {
+		return
+	}
+	t.blocked = true
+	ts.yieldPoint(ex, "block", false)
+}
+
 func (ts *threadState) yieldPoint(ex *Exec, what string, wait bool) {
 	t := ts.cur
 	if t == nil || !ts.running {
@@ -106,6 +147,12 @@ func (ts *threadState) run(ex *Exec) {
 			if !t.daemon {
 				alive++
 			}
+			if t.blocked && t.blockSeen == ts.progress {
+				continue // nothing has changed since it blocked
+			}
+			if t.blockPred != nil && !ts.predHolds(ex, t) {
+				continue
+			}
 			if t.waiting && t.waitOthers == ts.totalSteps-t.steps {
 				// spinning (runtime.Gosched / blocked lock): not scheduled again until another thread has stepped
 				if !(t.prevWaitValid && t.prevWaitOthers == t.waitOthers) {
@@ -129,7 +176,25 @@ func (ts *threadState) run(ex *Exec) {
 		}
 		// context bound: once the switch budget is used up, keep running the current thread while it can
 		var pick *thread
-		if ex.h.cfg.MaxSwitches > 0 && ts.switches >= ex.h.cfg.MaxSwitches && last != nil {
+		eager := false
+		if ex.h.cfg.EagerStart {
+			for _, t := range ts.threads {
+				if !t.started && !t.done {
+					pick, eager = t, true
+					break
+				}
+			}
+		}
+		if pick == nil && ex.h.cfg.MaxSwitches > 0 && ts.switches >= ex.h.cfg.MaxSwitches && last != nil {
+			for _, t := range runnable {
+				if t == last {
+					pick = t
+				}
+			}
+		}
+		// preemption bound: the last thread could go on (it is at an ordinary gate, neither waiting nor blocked)
+		lastCanGoOn := last != nil && !last.done && !last.waiting && !last.blocked && last.blockPred == nil
+		if pick == nil && ex.h.cfg.PreemptBound && ts.preempts >= ex.h.cfg.MaxPreempt && lastCanGoOn {
 			for _, t := range runnable {
 				if t == last {
 					pick = t
@@ -144,18 +209,33 @@ func (ts *threadState) run(ex *Exec) {
 			}
 			pick = runnable[k]
 		}
-		if last != nil && pick != last {
+		if last != nil && pick != last && !eager {
 			ts.switches++
+			if lastCanGoOn {
+				ts.preempts++
+			}
 		}
 		ts.cur = pick
 		if pick.waiting {
 			pick.prevWaitOthers, pick.prevWaitValid = pick.waitOthers, true
 		}
 		pick.waiting = false
+		wasBlocked := pick.blocked
+		pick.blocked = false
+		pick.blockPred = nil
 		pick.steps++
 		ts.totalSteps++
+		stores := ex.storeCount
 		ts.resumeThread(ex, pick)
-		last = pick
+		if !eager || last == nil {
+			last = pick
+		}
+		if ex.storeCount != stores || pick.done || !wasBlocked && !pick.blocked {
+			ts.progress++
+		}
+		if pick.blocked {
+			pick.blockSeen = ts.progress
+		}
 		if pick.failure != nil {
 			f := pick.failure
 			pick.failure = nil
